@@ -77,6 +77,8 @@ def replay(r):
     A, x, kind, rows, left = r["A"], r["x"], r["kind"], r["rows"], r.get("left", False)
     B, L = len(x), len(x[0])
     X = C.real_onehot(x, A)
+    if r.get("xdtype"):
+        X = X.type(getattr(torch, r["xdtype"]))
     X0 = X.clone()
     V = torch.tensor(rows, dtype=torch.int64).reshape(len(rows), 2 if kind == "deletion" else 3)
     f = lambda model, X, args=None, **kw: X
@@ -128,7 +130,7 @@ def worker(cfg):
 
     def body(ctx):
         xc = C.sym_chars(ctx, "x", (B, L), A)
-        X = C.onehot_from_chars(xc, A)
+        X = C.onehot_from_chars(xc, A, dtype=cfg.get("xdtype", "int8"))      # the caller's dtype (a conversion to the same dtype is the same object)
         snap = X.a.copy()
         pos = [core.Int("p%d" % r) for r in range(nrows)]
         chs = [core.Int("c%d" % r) for r in range(nrows)]
@@ -232,6 +234,10 @@ def configs(tier):
                         if len(ex) >= 4 and L > 6:
                             continue
                         cf.append(dict(kind=kind, A=2 if len(ex) > 2 else 3, B=B, L=L, examples=ex, left=left))
+    # the caller's tensor in other dtypes (a dtype "conversion" to the dtype a tensor already has returns the tensor itself)
+    for kind in ("substitution", "deletion", "insertion"):
+        for k_, dt in enumerate(("float32", "float64", "int64", "float16", "int32", "uint8") if tier != "quick" else ("float32", "float64", "int64")):
+            cf.append(dict(kind=kind, A=3, B=2, L=4, examples=[0, 1] if k_ % 2 == 0 else [1, 1], left=(k_ % 2 == 1) and kind != "substitution", xdtype=dt))
     cf.append(dict(kind="substitution", A=2, B=1, L=3, examples=[0, 0], bad_char=True))
     cf.append(dict(kind="insertion", A=2, B=1, L=3, examples=[0], bad_char=True))
     return cf
